@@ -18,7 +18,7 @@ def check(tier, seed):
     rep = core.Report('C10', tier, seed)
     rng = random.Random(seed)
     b = core.prepare('C10', 'Fips204/Props/C10.lean')
-    if b.cargo_errs or not b.model_ok:
+    if b.cargo_errs:
         return core.finish(rep, b, 'proof', {}, ['build failed'])
     cases = []
     for s in fam.SETS:
